@@ -1,13 +1,19 @@
 (* C10 — Parsing: fixed precedence table, layout-insensitive, all plain names usable.
    Property theorems only (each closed by [exact lemma], pinned by [Check], followed by
-   [Print Assumptions]).  Model: Pratt.v (pest's Pratt parser + pairs_to_expr_inner over a token
-   stream), PrattRender.v (spec_table, renderings), gen/PrecTable.v (GENERATED from precedence.rs /
-   expressions.rs / pest on every run). *)
-From Coq Require Import String List Bool Arith.
+   [Print Assumptions]).
+   Model: Pratt.v (pest 2.8.3 PrattParserMap::{parse,expr,nud,led,lbp} and blots-core
+   pairs_to_expr_inner over a token stream = pest Pairs), PrattRender.v (spec_table, renderings),
+   gen/PrecTable.v (GENERATED on every run from precedence.rs / expressions.rs / pest).
+   What is NOT proved here and is decided by correspondence + search on the real parser
+   (checks/c10.py): the character level (pest PEG: blanks, line breaks, comments, trailing commas,
+   identifiers) — see notes/C10.md. *)
+From Coq Require Import String List Bool Arith ZArith.
 Require Import Blots.Num Blots.gen.Builtins Blots.Ast Blots.Outcome Blots.PrattTypes Blots.gen.PrecTable
-               Blots.Pratt Blots.PrattRender Blots.proofs.PrattTable.
+               Blots.Pratt Blots.PrattRender Blots.proofs.PrattTable Blots.proofs.PrattAdequacy
+               Blots.proofs.PrattRT.
 Import ListNotations.
 Local Open Scope nat_scope.
+Local Open Scope string_scope.
 
 (* The table of the property text, written once by hand (PrattRender.v); pinned here. *)
 Example spec_table_is :
@@ -26,7 +32,8 @@ Proof. reflexivity. Qed.
 
 (* P0  Every operator rule has, in the Pratt table that build_pratt_parser constructs from the
    GENERATED rows, the affix, associativity and level of spec_table (level n <-> binding power
-   10n+10, pest's PREC_STEP numbering).  Finite: all 34 operator rules. *)
+   10n+10, pest's PREC_STEP numbering).  Finite: all 34 operator rules.  A moved level or a flipped
+   associativity in precedence.rs changes gen/PrecTable.v and breaks this proof. *)
 Theorem C10_table_refines_spec :
   forall r, exists a n, spec_level r = Some (a, n) /\ assoc_find r impl_table = Some (a, 10 * n + 10).
 Proof. exact table_refines_spec. Qed.
@@ -40,3 +47,89 @@ Theorem C10_operator_info_consistent : forallb opinfo_agrees all_binops = true.
 Proof. exact operator_info_consistent. Qed.
 Check C10_operator_info_consistent : forallb opinfo_agrees all_binops = true.
 Print Assumptions C10_operator_info_consistent.
+
+(* P0  For every tree the parser can produce (wf), EVERY rendering that carries at least the
+   parentheses spec_table requires — any number of redundant layers anywhere (par), either spelling
+   of `not` (wn) — is converted back to the tree by the crate's Pratt parser (impl_table built from
+   the generated rows, generated map_infix / map_prefix arms), for every large enough fuel (fuel is
+   an artefact of the model; Rust has none).  Unbounded: induction over trees. *)
+Theorem C10_pratt_roundtrip_all : forall par wn t, wf t = true ->
+  exists n, forall m, n <= m -> parse_impl m (spec_render par wn t) = Ok (Some t).
+Proof. exact pratt_spec_roundtrip_all. Qed.
+Check C10_pratt_roundtrip_all : forall par wn t, wf t = true ->
+  exists n, forall m, n <= m -> parse_impl m (spec_render par wn t) = Ok (Some t).
+Print Assumptions C10_pratt_roundtrip_all.
+
+(* ... in particular from the minimally and from the fully parenthesised rendering *)
+Theorem C10_pratt_spec_roundtrip : forall t, wf t = true ->
+  exists n, forall m, n <= m ->
+    parse_impl m (flat_min t) = Ok (Some t) /\ parse_impl m (flat_full t) = Ok (Some t).
+Proof. exact pratt_spec_roundtrip. Qed.
+Check C10_pratt_spec_roundtrip : forall t, wf t = true ->
+  exists n, forall m, n <= m ->
+    parse_impl m (flat_min t) = Ok (Some t) /\ parse_impl m (flat_full t) = Ok (Some t).
+Print Assumptions C10_pratt_spec_roundtrip.
+
+(* ... hence "an expression and its fully parenthesised form under this table parse identically" *)
+Theorem C10_min_full_parse_identically : forall t, wf t = true ->
+  exists n, forall m, n <= m -> parse_impl m (flat_min t) = parse_impl m (flat_full t).
+Proof. exact min_full_parse_identically. Qed.
+Check C10_min_full_parse_identically : forall t, wf t = true ->
+  exists n, forall m, n <= m -> parse_impl m (flat_min t) = parse_impl m (flat_full t).
+Print Assumptions C10_min_full_parse_identically.
+
+(* ... and redundant parentheses / the spelling of `not` never change the parsed program *)
+Theorem C10_redundant_parens_irrelevant : forall par1 wn1 par2 wn2 t, wf t = true ->
+  exists n, forall m, n <= m ->
+    parse_impl m (spec_render par1 wn1 t) = parse_impl m (spec_render par2 wn2 t).
+Proof. exact renderings_parse_identically. Qed.
+Check C10_redundant_parens_irrelevant : forall par1 wn1 par2 wn2 t, wf t = true ->
+  exists n, forall m, n <= m ->
+    parse_impl m (spec_render par1 wn1 t) = parse_impl m (spec_render par2 wn2 t).
+Print Assumptions C10_redundant_parens_irrelevant.
+
+(* The relational transcription is sound for the function (so the theorems above are about the
+   executable model that the correspondence runs). *)
+Theorem C10_relations_sound : forall tbl imap pmap its t,
+  Items tbl imap pmap its t -> exists n, forall m, n <= m -> parse_items tbl imap pmap m its = Ok (Some t).
+Proof. exact items_sound. Qed.
+Check C10_relations_sound : forall tbl imap pmap its t,
+  Items tbl imap pmap its t -> exists n, forall m, n <= m -> parse_items tbl imap pmap m its = Ok (Some t).
+Print Assumptions C10_relations_sound.
+
+(* P0  and/&&, or/||, not/!: the two spellings have the same Pratt entry (affix, associativity,
+   level) and are mapped by map_infix / map_prefix to constructors of one evaluator class
+   (And|NaturalAnd, Or|NaturalOr, Not|Invert).  Finite: all pairs of the 34 operator rules. *)
+Theorem C10_word_symbol_same : forall r1 r2, same_spelling r1 r2 = true ->
+  opt_entry_eqb (assoc_find r1 impl_table) (assoc_find r2 impl_table) = true /\
+  token_sem_eqb (token_sem_of r1) (token_sem_of r2) = true.
+Proof. exact word_symbol_same. Qed.
+Check C10_word_symbol_same : forall r1 r2, same_spelling r1 r2 = true ->
+  opt_entry_eqb (assoc_find r1 impl_table) (assoc_find r2 impl_table) = true /\
+  token_sem_eqb (token_sem_of r1) (token_sem_of r2) = true.
+Print Assumptions C10_word_symbol_same.
+
+(* ---- the hypotheses are satisfiable: a tree using every operator kind and nested form ---- *)
+Definition sample_tree : expr :=
+  EBin NaturalOr
+    (EBin Less (EBin Add (EId "a") (EBin Power (EUn Negate (EId "b")) (EBin Power (EFact (EId "c")) (EId "d"))))
+               (EBin Coalesce (ECall (EBuiltin B_sum) [EList [Cm [] (ENum (num_of_Z 1%Z)) None;
+                                                               Cm [] (ESpread (EId "xs")) None]]) (EId "z")))
+    (EUn Not (EDot (EAccess (ERec [Cm [] (REntry (KStatic "k") (ELam [AReq "x"] (EBin Via (EId "x") (EId "f")))) None;
+                                   Cm [] (REntry (KShort "q") ENull) None]) (EStr "k")) "fld")).
+Example sample_tree_wf : wf sample_tree = true.
+Proof. vm_compute. reflexivity. Qed.
+Example sample_tree_min : items_text (flat_min sample_tree) =
+  "a + -b ^ c! ^ d < sum([1, ...xs]) ?? z or !{""k"": (x) => x via f, q}[""k""].fld".
+Proof. vm_compute. reflexivity. Qed.
+Example sample_tree_parses :
+  pratt_impl (flat_min sample_tree) = Ok (Some sample_tree) /\
+  pratt_impl (flat_full sample_tree) = Ok (Some sample_tree).
+Proof. vm_compute. split; reflexivity. Qed.
+
+(* ---- statements kept but not proved ---- *)
+(* The same with the ample fuel the correspondence uses (4 * token count + 4) instead of "every
+   large enough fuel": true on every case the correspondence runs (OUTOFFUEL is counted and must
+   be 0); a proof needs a fuel bound for the relations, not done. *)
+Definition C10_pratt_roundtrip_ample_fuel_full : Prop :=
+  forall par wn t, wf t = true -> pratt_impl (spec_render par wn t) = Ok (Some t).
